@@ -151,3 +151,96 @@ func (r *Report) LoopVisitsAll(key, fnKey, callee string, o LoopOpts) {
 	}
 	r.OK(k, d, w.FnPos(fn), fmt.Sprintf("%d blocks, %d exit edges, %d reviewed other exits", len(loop), exits, others))
 }
+
+// LoopAlwaysCalls: in the loop of fn that contains the call of callee, every iteration reaches that call unless it
+// leaves through the `unless` condition (the one reviewed reason to skip it): with the call's block and the skipping edge
+// of the `unless` test removed, the loop header must be unreachable from the start of the body. A `continue` placed
+// before the call (seed C17-6: non-IBC tunnels skipped the active-index write) is such a path.
+func (r *Report) LoopAlwaysCalls(key, fnKey, callee string, unless Cond) {
+	w := r.W
+	fn := w.Fn(fnKey)
+	d := fmt.Sprintf("every iteration of the loop of %s reaches %s unless %s", fnKey, callee, unless.Desc)
+	k := fmt.Sprintf("%s|%s|%s", key, fnKey, callee)
+	if fn == nil {
+		r.Unres(k, d, "function not found")
+		return
+	}
+	w.FuncsAnalysed[fn] = true
+	calls := Calls(fn, callee)
+	var loop map[*ssa.BasicBlock]bool
+	var header *ssa.BasicBlock
+	var callBlock *ssa.BasicBlock
+	for h, l := range naturalLoops(fn) {
+		for _, c := range calls {
+			if l[c.Block()] && (loop == nil || len(l) < len(loop)) {
+				loop, header, callBlock = l, h, c.Block()
+			}
+		}
+	}
+	if loop == nil {
+		r.Unres(k, d, "no call of "+callee+" inside a loop")
+		return
+	}
+	// the skipping edge of the `unless` test
+	type edge struct{ from, to *ssa.BasicBlock }
+	var skip []edge
+	for _, ii := range w.ifs(fn) {
+		if !loop[ii.b] || unless.Op == "" {
+			continue
+		}
+		if m, passOnTrue := unless.Match(ii.pred); m {
+			// unless.Want describes when the call is REQUIRED; the other edge is the reviewed skip
+			if passOnTrue {
+				skip = append(skip, edge{ii.b, ii.b.Succs[1]})
+			} else {
+				skip = append(skip, edge{ii.b, ii.b.Succs[0]})
+			}
+		}
+	}
+	if len(skip) == 0 && unless.Op != "" {
+		r.Unres(k, d, "no test of ["+unless.Desc+"] in the loop")
+		return
+	}
+	isSkip := func(a, b *ssa.BasicBlock) bool {
+		for _, e := range skip {
+			if e.from == a && e.to == b {
+				return true
+			}
+		}
+		return false
+	}
+	seen := map[*ssa.BasicBlock]bool{}
+	var bad *ssa.BasicBlock
+	var walk func(b *ssa.BasicBlock)
+	walk = func(b *ssa.BasicBlock) {
+		if seen[b] || b == callBlock || bad != nil {
+			return
+		}
+		seen[b] = true
+		for _, s := range b.Succs {
+			if !loop[s] || isSkip(b, s) {
+				continue
+			}
+			if s == header {
+				bad = b
+				return
+			}
+			walk(s)
+		}
+	}
+	for _, s := range header.Succs {
+		if loop[s] && s != header {
+			walk(s)
+		}
+	}
+	w.SitesExamined++
+	if bad != nil {
+		pos := "-"
+		if len(bad.Instrs) > 0 {
+			pos = w.posOr(bad.Instrs[len(bad.Instrs)-1].Pos(), fn)
+		}
+		r.Bad(k, d, pos, fmt.Sprintf("an iteration can return to the loop header from block %d without calling %s and without the reviewed skip", bad.Index, callee))
+		return
+	}
+	r.OK(k, d, w.FnPos(fn), fmt.Sprintf("loop of %d blocks; only the reviewed skip avoids the call", len(loop)))
+}
